@@ -1,4 +1,6 @@
 import Snowflake.Generated.Broker
+import Snowflake.Base.Skel
+import Snowflake.Base.SkelStack
 /-!
 Tie obligations for the broker rendezvous model (C02, C03, C04): the synchronisation skeletons
 regenerated from `/repo/broker/{broker.go, ipc.go, snowflake-heap.go}` are the ones the hand-written
@@ -268,5 +270,60 @@ model's `NatT` does. -/
 theorem nat_names_distinct :
     Broker.NATUnknown ≠ Broker.NATRestricted ∧ Broker.NATUnknown ≠ Broker.NATUnrestricted
     ∧ Broker.NATRestricted ≠ Broker.NATUnrestricted := by decide
+
+/-! ## Registration accounting sites (events of `Model/BrokerReg.lean`)
+
+Each event of the registration model is one critical section of the source that contains exactly the listed
+effects: `add` = one heap push (per branch), one gauge `Inc`, one id-map store; `timeout` = heap remove, one gauge
+`Dec`, one id-map delete, only when the poll is still queued; `cleanup` = one gauge `Dec` and one id-map delete at
+the end of `ClientOffers`, reached on both arms of the answer/timeout `select`; nothing else touches the gauge or
+the id map (`ProxyAnswers` only reads it). -/
+
+def anyGauge (l : String) : Bool := Snowflake.Skel.contains "AvailableProxies" l
+def isGauge (op : String) (l : String) : Bool :=
+  l.startsWith "call " && anyGauge l && l.endsWith ("." ++ op ++ "()")
+def mapWrite (l : String) : Bool :=
+  (l.startsWith "assign " && Snowflake.Skel.contains "idToSnowflake[" l && !(l.startsWith "assign snowflake, ok")) ||
+  (l.startsWith "call delete(" && Snowflake.Skel.contains "idToSnowflake" l)
+
+open Snowflake.Skel in
+theorem registration_sites :
+    -- add
+    count Broker.reg_AddSnowflake anyGauge = 1 ∧ count Broker.reg_AddSnowflake (isGauge "Inc") = 1
+    ∧ count Broker.reg_AddSnowflake mapWrite = 1
+    ∧ Broker.reg_AddSnowflake.contains "assign ctx.idToSnowflake[id] = snowflake" = true
+    ∧ count Broker.reg_AddSnowflake (pre "call heap.Push(") = 2
+    ∧ before Broker.reg_AddSnowflake (· == "call ctx.snowflakeLock.Lock()") (pre "call heap.Push(") = true
+    ∧ before Broker.reg_AddSnowflake mapWrite (· == "call ctx.snowflakeLock.Unlock()") = true
+    ∧ before Broker.reg_AddSnowflake (isGauge "Inc") (· == "call ctx.snowflakeLock.Unlock()") = true
+    -- timeout
+    ∧ count Broker.reg_Broker anyGauge = 1 ∧ count Broker.reg_Broker (isGauge "Dec") = 1
+    ∧ count Broker.reg_Broker mapWrite = 1
+    ∧ blockOf Broker.reg_Broker (· == "if snowflake.index != -1{") = some [
+        "if request.natType == NATUnrestricted{",
+        "call heap.Remove(ctx.snowflakes, snowflake.index)",
+        "}else{",
+        "call heap.Remove(ctx.restrictedSnowflakes, snowflake.index)",
+        "}",
+        "call ctx.metrics.promMetrics.AvailableProxies.With(prometheus.Labels{\"nat\": request.natType, \"type\": request.proxyType}).Dec()",
+        "call delete(ctx.idToSnowflake, snowflake.id)",
+        "call close(request.offerChannel)"]
+    -- cleanup: after the select, at the top level of ClientOffers
+    ∧ count Broker.reg_ClientOffers anyGauge = 1 ∧ count Broker.reg_ClientOffers (isGauge "Dec") = 1
+    ∧ count Broker.reg_ClientOffers mapWrite = 1
+    ∧ Broker.reg_ClientOffers.reverse.take 5 = [
+        "return",
+        "call i.ctx.snowflakeLock.Unlock()",
+        "call delete(i.ctx.idToSnowflake, snowflake.id)",
+        "call i.ctx.metrics.promMetrics.AvailableProxies.With(prometheus.Labels{\"nat\": snowflake.natType, \"type\": snowflake.proxyType}).Dec()",
+        "call i.ctx.snowflakeLock.Lock()"]
+    ∧ blockOf Broker.reg_ClientOffers (· == "select{") = some [
+        "case:", "recv snowflake.answerChannel", "do:",
+        "call i.ctx.metrics.lock.Lock()", "call i.ctx.metrics.lock.Unlock()",
+        "call i.ctx.metrics.lock.Lock()", "call i.ctx.metrics.lock.Unlock()",
+        "case:", "recv time.After(time.Second * ClientTimeout)", "call time.After(time.Second * ClientTimeout)", "do:"]
+    -- nothing else
+    ∧ count Broker.reg_ProxyAnswers anyGauge = 0 ∧ count Broker.reg_ProxyAnswers mapWrite = 0 := by
+  decide +kernel
 
 end Snowflake.Tie.Broker
